@@ -129,6 +129,24 @@ theorem c02_extracted_sort :
     Extracted.C02.previousSortStmt = "previous.sort_unstable();" := by
   decide
 
+/-- The decoder of the Node extensions stores every field exactly as it was read, in the order the
+    model's `nodeCodec` reads them (log id, timestamp, then prune flag / previous): each branch of
+    `visit_seq` consists of the three `next_element` reads followed by the struct literal built from
+    those bindings — no statement in between re-binds or replaces a field — and nothing in the
+    `Deserialize` impl consults a clock (`Timestamp::now()`, `SystemTime`, …): decoding is a
+    function of the bytes only, which is what `decode` models. -/
+theorem c02_extracted_decode :
+    Extracted.C02.decodeBasicStmts =
+      ["log_id: LogId <- next_element", "timestamp: Timestamp <- next_element",
+       "prune_flag: PruneFlag <- next_element",
+       "ExtensionsVariantV1::Basic(BasicExtensions { log_id, timestamp, prune_flag, })"] ∧
+    Extracted.C02.decodeCausalStmts =
+      ["log_id: LogId <- next_element", "timestamp: Timestamp <- next_element",
+       "previous: HashSet<Hash> <- next_element",
+       "ExtensionsVariantV1::Causal(CausalExtensions { log_id, timestamp, previous, })"] ∧
+    Extracted.C02.decodeClockReads = 0 := by
+  decide
+
 /-! ### Non-vacuity: concrete validated headers meet the hypotheses -/
 
 /-- Node header, causal extensions with three `previous` hashes, body and backlink present. -/
